@@ -231,6 +231,13 @@ func runPF1(c *Ctx, rr *core.RuleResult, scope map[*core.Func]bool, fatal map[*c
 		}
 	}
 	rr.Note("%d functions in scope", nf)
+	names := map[string]bool{}
+	for f := range scope {
+		names[f.Name] = true
+	}
+	if stale := unusedExceptions(func(fn string) bool { return names[fn] }); len(stale) > 0 {
+		rr.Note("exception-table entries that matched no site (stale, harmless): %v", stale)
+	}
 }
 
 // pfException is one reasoned discharge: a named construct and why the
@@ -251,8 +258,22 @@ func lookupInvariant(c *Ctx, f *core.Func, s *pf1Site) *pfException {
 			continue
 		}
 		if e.Func == f.Name || (strings.HasSuffix(e.Func, "*") && strings.HasPrefix(f.Name, strings.TrimSuffix(e.Func, "*"))) {
+			pfUsed[i] = true
 			return e
 		}
 	}
 	return nil
+}
+
+var pfUsed = map[int]bool{}
+
+// unusedExceptions lists table entries no site matched (stale entries).
+func unusedExceptions(inScope func(fn string) bool) []string {
+	var out []string
+	for i, e := range pfExceptions {
+		if !pfUsed[i] && inScope(e.Func) {
+			out = append(out, e.Func+"|"+e.Kind+"|"+e.Expr)
+		}
+	}
+	return out
 }
